@@ -248,6 +248,9 @@ impl<C: Config, Q: Query> Snapshot<C, Q> {
         let lock = self.lock.take().expect("snapshot lock must exist");
         drop(lock);
 
+        #[cfg(feature = "verif")]
+        qbice_storage::verif::yield_point("pre:snapshot:upgrade_to_exclusive").await;
+
         let exclusive_lock = self
             .engine
             .computation_graph
